@@ -107,6 +107,35 @@ pub fn impl_answer(case: &Case) -> String {
             let spec = CtxSpec::from_sx(&payload[0]).expect("bad ctx");
             eval_on_impl(&spec, case.src.as_deref(), payload.get(1))
         }
+        "refs" | "refexec" => {
+            let src = case.src.clone().unwrap_or_default();
+            let spec = if case.kind == "refexec" { CtxSpec::from_sx(&payload[0]) } else { None };
+            let r = quietly(|| {
+                catch_unwind(AssertUnwindSafe(|| {
+                    let prog = match Program::compile(&src) {
+                        Ok(p) => p,
+                        Err(_) => return "(compile-error)".to_string(),
+                    };
+                    let refs = prog.references();
+                    let mut vars: Vec<String> = refs.variables().iter().map(|s| s.to_string()).collect();
+                    let mut funcs: Vec<String> = refs.functions().iter().map(|s| s.to_string()).collect();
+                    vars.sort();
+                    vars.dedup();
+                    funcs.sort();
+                    funcs.dedup();
+                    let names = |v: &[String]| v.iter().map(|n| format!(" {}", crate::sx::hex(n.as_bytes()))).collect::<String>();
+                    match &spec {
+                        None => format!("(refs (vars{}) (funcs{}))", names(&vars), names(&funcs)),
+                        Some(spec) => {
+                            let log: Log = Arc::new(Mutex::new(vec![]));
+                            let res = spec.with_context(&log, |ctx| prog.execute(ctx));
+                            format!("(refexec (vars{}) (funcs{}) {})", names(&vars), names(&funcs), result_to_sx(&res).to_text())
+                        }
+                    }
+                }))
+            });
+            r.unwrap_or_else(|_| "(panic)".to_string())
+        }
         "ctxops" => {
             let r = quietly(|| {
                 catch_unwind(AssertUnwindSafe(|| {
